@@ -20,42 +20,47 @@ import numpy as np
 
 from common import req, close, TOL, run_driver
 import scen_bpm
+import c03
 
 META = {
-    'text': 'PARTIAL. Theorems (Lean 4, reals, any particle list / number of compounds / loop history): a linear '
-            'functional annihilated by the right-hand side is preserved by every integrator step of the form '
-            'q\' = sum a_j q_j + sum w_k f(x_k), sum a_j = 1; by the C03 compound budget the per-compound totals '
-            '(particles + dissolved) are such functionals when ca = 0 and k_bio = 0, as is the mass of an inert '
-            'particle; correct_temperature and correct_particle_tracking change heat and position slots only; a '
-            'particle with integrate=False has NaN-marked positions and an all-zero right-hand side; lmp.calculate '
-            'returns after <= 50001 iterations with one of {neutral-after-peak counter, distance, cap, surface, stall} '
-            'or because the integrator failed. Complete real simulations over the quantifier are then checked row by '
-            'row (finite values, drift of every compound total <= 1e-6, inert mass, NaN marking, frozen masses within '
-            'the solver tolerance, documented stop reason also in the physical sense) and replayed through the Lean '
-            'loop-control model; the two real correction functions are compared with their Lean models.',
-    'note': 'Trusted / not proved: scipy VODE (assumed to advance by affine combinations of stored states and '
-            'right-hand-side evaluations, DESIGN §3 item 6); my transcription of the loop control and corrections '
-            '(tied by replay / value correspondence); closures; floating point. The freezing of the masses of an '
-            'exited particle is proved only under the hypothesis that all history states used by a step carry the '
-            'same value (false for a multistep method during the first steps after the exit) — on the real code it is '
-            'a sampled predicate with the tolerance the solver was given (key exit-masses-drift when exceeded). The stop '
-            'reason is judged both as the code evaluates it (replayed tests) and in the physical sense of the statement: a '
-            'stop by the neutral-buoyancy counter needs a genuine reversal of the vertical momentum followed by a genuine '
-            'reversal of rho_a - rho (key neutral-stop-before-peak: exactly horizontal releases, where np.sign(0.) is '
-            'counted as a reversal). Stall and iteration-cap endings did not occur in any sampled simulation; they are '
-            'covered by the theorem and the replay logic only.',
-    'technique': 'Lean 4 proof over a hand model of loop control + invariants; complete real simulations post-processed and replayed',
+    'text': 'PARTIAL. PROVED (Lean 4, reals; any particle list, any number of compounds, any run): a linear functional '
+            'annihilated by the right-hand side is preserved by every integrator step q\' = sum a_j q_j + sum w_k f(x_k), '
+            'sum a_j = 1, and along a WHOLE run in which every step may use any earlier solver states (run_invariant); by the '
+            'C03 compound budget the per-compound totals are such functionals when ca = 0 and k_bio = 0, so every solver '
+            'state and every STORED row (the corrected copy: correct_temperature, correct_particle_tracking touch heat / '
+            'position slots only) carries the total of the first element (stored_rows_conserve); same for an inert mass; a '
+            'particle with integrate=False has NaN-marked positions and an all-zero right-hand side; the loop returns after '
+            '<= 50001 passes, stops in the FIRST pass in which one of the five tests fires, otherwise on integrator failure. '
+            'SAMPLED on complete real simulations: finite values, compound drift <= 1e-6 (observed 1e-14), inert mass; exit '
+            'detected from the stored geometry (distance from centreline > half-width) and the NaN marking judged against '
+            'it; particle heat after heat transfer is switched off; per-step bounds on the masses of exited particles; '
+            'stop reason as replayed tests and in the physical sense; lmp.derivs on stored rows incl. post-exit rows '
+            '(budgets with oracle ambient values, slot-by-slot against the Lean model). The REAL loop body of lmp.calculate '
+            'is also run with a stubbed integrator on crafted observation sequences (every threshold at its edge, stall, '
+            'cap, integrator failure) and compared with the documented tests and the Lean model.',
+    'note': 'Trusted / NOT proved: scipy VODE (assumed to advance by affine combinations of earlier solver states and '
+            'right-hand-side evaluations, DESIGN §3 item 6; a Newton corrector with a finite-difference Jacobian also '
+            'preserves such functionals but is not covered by the statement); my transcriptions (tied by replay / value '
+            'correspondence); closures; floating point. "Masses stop changing after exit" is NOT a theorem: '
+            'exited_slot_step_partial needs all history states of a step to agree, false for BDF right after the exit; on '
+            'the real code it is a sampled per-step bound (known finding exit-masses-drift for the first 20 stored steps, '
+            'anything later / faster is exit-masses-change). Stall and cap endings occur only in the stubbed-integrator '
+            'runs, never in a sampled simulation. Known findings on /repo: neutral-stop-before-peak (phi_0 == 0 exactly), '
+            'exit-masses-drift.',
+    'technique': 'Lean 4 proof over a hand model of loop control + invariants; complete real simulations post-processed and replayed; real loop body driven by a stubbed integrator',
 }
 GEN = []
 MODULES = ['TamocV.Props.C04', 'TamocV.Model.Lmp']
 RULE = ('complete bent_plume_model.Model.simulate runs on random scenarios of the quantifier: release depth 100-2500 m, '
-        'pure multiphase (Vj=0) or mixed jet/plume, phi_0 from vertical (-pi/2) to horizontal (0), currents none/uniform/'
+        'pure multiphase (Vj=0) or mixed jet/plume, phi_0 from vertical (-pi/2) to exactly horizontal (0), currents none/uniform/'
         'sheared 0-0.3 m/s any direction, 1-6 particle classes gas/liquid/inert, orifice 0.05-1 m, dt_max 10-600 s, '
-        'normal or weak stratification, ambient free of the released compounds, all k_bio = 0; sd_max either 30-300 or '
-        'unbounded (natural ending); a scenario is non-trivial when the simulation has more than 3 rows')
-LEVEL_NOTE = ('theorems over the reals about my model of lmp.calculate / corrections and about any affine integrator step; '
-              'VODE, closures and floating point are trusted; the model is tied to /repo by replaying every stored '
-              'simulation through it')
+        'normal or weak stratification, ambient free of the released compounds, all k_bio = 0; sd_max 30-300 or unbounded; '
+        'designated classes: shallow surfacing release, cross-current exit, exactly horizontal release; plus crafted '
+        'observation sequences for the stubbed-integrator runs of the real loop; floors on every regime are obligations; '
+        'a scenario is non-trivial when the simulation has more than 3 rows')
+LEVEL_NOTE = ('theorems over the reals about my model of lmp.calculate / corrections and about any affine integrator step and run; '
+              'VODE, closures and floating point are trusted; the model is tied to /repo by replaying every stored simulation, '
+              'by running the real loop body on crafted sequences and by lmp.derivs correspondence on stored rows')
 
 # the tolerances lmp.calculate (l.241-242) hands to VODE; a component with zero right-hand side may move by the local
 # error allowance of each accepted step (weighted RMS norm over N components: one component may use sqrt(N) of it)
@@ -82,11 +87,11 @@ def _scenario(ctx, i):
     depth = [150., 2400.][i % 2] if i < 2 else None
     if i % 8 == 1:
         # shallow vertical gas release into weakly stratified water with no distance limit: reaches the surface
-        scn = scen_bpm.random_scenario(r, nparticles=r.randint(1, 3), depth=r.uniform(100., 160.), mix='gas', biodeg=False,
-                                       background='none', current=r.choice(['none', 'uniform']), strat='weak', wa=False)
+        scn = scen_bpm.random_scenario(r, nparticles=r.randint(1, 3), depth=r.uniform(100., 130.), mix='gas', biodeg=False,
+                                       background='none', current='none', strat='weak', wa=False)
         scn['release']['phi_0'] = -math.pi / 2
         for sp in scn['particles']:
-            sp['mdot'] = r.uniform(0.5, 5.)
+            sp['mdot'] = r.uniform(2., 6.)
             sp['de'] = r.uniform(0.003, 0.01)
         scn['release']['sd_max'] = 1e5
         return scn
@@ -153,7 +158,8 @@ def _element_rows(tam, prf, q):
     return dr, Te, b
 
 
-WINDOW = 7          # stored steps after an exit during which the BDF history still holds pre-exit values (order 5 + start-up)
+TAIL = 20           # stored steps after an exit until the ringing of the BDF history (order 5, variable step) has decayed
+                    # (measured on 500 exits: up to 30 tol in step 1, up to 5 tol until step ~15, < 0.2 tol/step after step 20)
 
 
 def replay_python(q, dr, D, sd_max):
@@ -294,9 +300,9 @@ def check_simulation(ctx, scn, bpm, prf, parts, tam):
                     ctx.violation('inert-mass-changes', 'mass of an inert particle class is not constant',
                                   dict(base, particle=i, row=k, m0=float(m[0]), m=float(m[k])))
     # ---- masses after exit: PER-STEP bounds.  tol = rtol*|m_exit| + atol is what one accepted step may add to a
-    # component with zero right-hand side.  Steps 1..WINDOW after the exit: the BDF history still holds pre-exit values
-    # (known finding exit-masses-drift) but cannot move the slot faster than the pre-exit trend; later steps: <= 1.5 tol
-    # per step and <= 5 tol in total
+    # component with zero right-hand side.  Steps 1..TAIL after the exit: the BDF history still holds pre-exit values
+    # (known finding exit-masses-drift) but cannot move the slot faster than 1.5 x the pre-exit rate; later: <= tol per step
+    # and <= 3 tol in total
     worst_frozen = 0.
     drifts = []
     for i, kg in exits.items():
@@ -310,7 +316,7 @@ def check_simulation(ctx, scn, bpm, prf, parts, tam):
             d = np.abs(q[k, a_:e_] - q[k - 1, a_:e_])
             worst_frozen = max(worst_frozen, float(np.max(d / tol)))
             info = dict(base, particle=i, exit_row=kg, row=k, steps_after_exit=j)
-            if j <= WINDOW:
+            if j <= TAIL:
                 over = d > 1.5 * trend * (t[k] - t[k - 1]) + tol
                 if np.any(over):
                     c = int(np.argmax(over))
@@ -322,12 +328,12 @@ def check_simulation(ctx, scn, bpm, prf, parts, tam):
                     drifts.append((float(d[c] / tol[c]), dict(info, slot=a_ + c, mass_at_exit=float(ref[c]), mass_before=float(q[k - 1, a_ + c]),
                                                               mass=float(q[k, a_ + c]), step_change=float(d[c]), step_change_over_tol=float(d[c] / tol[c]))))
             else:
-                cum = np.abs(q[k, a_:e_] - q[kg + WINDOW, a_:e_])
-                if np.any(d > 1.5 * tol) or np.any(cum > 5. * tol):
-                    c = int(np.argmax(np.maximum(d / (1.5 * tol), cum / (5. * tol))))
-                    ctx.violation('exit-masses-change', 'recorded masses of a particle still change more than %d stored steps after it left the plume (per step > 1.5 (rtol |m| + atol) or in total > 5 (rtol |m| + atol))' % WINDOW,
+                cum = np.abs(q[k, a_:e_] - q[kg + TAIL, a_:e_])
+                if np.any(d > tol) or np.any(cum > 3. * tol):
+                    c = int(np.argmax(np.maximum(d / tol, cum / (3. * tol))))
+                    ctx.violation('exit-masses-change', 'recorded masses of a particle still change more than %d stored steps after it left the plume (per step > rtol |m| + atol or in total > 3 (rtol |m| + atol))' % TAIL,
                                   dict(info, slot=a_ + c, mass_at_exit=float(ref[c]), mass=float(q[k, a_ + c]), step_change=float(d[c]),
-                                       change_since_window=float(cum[c]), tol=float(tol[c])))
+                                       change_since_tail=float(cum[c]), tol=float(tol[c])))
                     break
     # ---- stop reason ---------------------------------------------------------------------------------------
     rel = scn['release']
@@ -546,6 +552,7 @@ def run(ctx, lean_ok):
     sims = []
     lines = []
     corr = []
+    drv = []
     nrej = 0
     all_drifts = []
     worst = worst_frozen = 0.
@@ -585,23 +592,52 @@ def run(ctx, lean_ok):
         sims.append((scn, res))
         all_drifts.extend(res['drifts'])
         lines.append(req('Lmp.calculate', CAP, res['n'] - 1, *res['obs']))
+        # lmp.derivs on stored rows of this simulation (first, last, one after an exit): budgets on the real vector with
+        # oracle ambient values, and the rows are kept for the slot-by-slot comparison with the Lean model
+        qq, tt = res['q'], np.array(bpm.t, dtype=float)
+        nanany = np.isnan(qq).any(axis=1)
+        ks = sorted(set([1, res['n'] - 1] + ([int(np.argmax(nanany)) + ctx.rng.randint(0, 2)] if nanany.any() else [])))
+        for k in [k for k in ks if 1 <= k < res['n']]:
+            flags = [not np.isnan(qq[k, sl['X'][0]]) for sl in res['lay']['particles']]
+            try:
+                with np.errstate(all='ignore'):
+                    rs = c03.eval_state(tam, bpm, prf, parts, qq[k - 1], tt[k - 1], qq[k], tt[k], flags, 'stored')
+            except Exception as e:
+                ctx.count('stored-row-derivs-rejected:' + type(e).__name__)
+                continue
+            ctx.count('stored-row-derivs' + (':post-exit' if not all(flags) else ''))
+            case = {'scenario': scn, 'row': k, 'flags': flags}
+            c03.closure_checks_python(ctx, case, rs)
+            for i_, blk in c03.outside_nonzero(rs['qp'], rs['ps'], rs['lay']):
+                ctx.violation('outside-particle-contributes', 'a particle outside the plume has a non-zero derivative slot in a stored row', dict(case, particle=i_, block=blk))
+            if np.all(np.isfinite(rs['qp'])):
+                for key, lhs, rhs, scale in c03.budgets(rs['qp'], c03._oracle_env(rs['env'], rs['ind']), rs['ps'], rs['lay']):
+                    if abs(lhs - rhs) > TOL['identity'] * scale + TOL['abs_floor']:
+                        ctx.violation(key + '-budget', 'budget does not close on lmp.derivs of a stored row: %s' % key,
+                                      dict(case, budget=key, lhs=float(lhs), rhs=float(rhs), scale=float(scale)))
+            drv.append((case, rs))
         # corrections on two rows of this simulation
         for k in sorted(set([res['n'] - 1, ctx.rng.randint(0, res['n'] - 1)])):
             try:
                 corr.append((scn, k, corrections_case(ctx, tam, parts, res['lay'], res['q'][k])))
             except Exception as e:
                 ctx.count('corrections-rejected:' + type(e).__name__)
+    ctx.oblige('floor: at least 85 %% of the scenarios completed (%d of %d)' % (len(sims), nscn), len(sims) >= 0.85 * nscn, '')
+    floors = {'particle-exits': ctx.n(1, 60), 'stop=surface': 1, 'stop=neutral': 1, 'stop=distance': 1, 'orientation=horizontal': 1,
+              'release=multiphase': 1, 'release=jet+particles': 1, 'class=inert': 1, 'class=gas': 1, 'stored-row-derivs:post-exit': ctx.n(1, 40)}
+    short = {k: ctx.hist.get(k, 0) for k, v in floors.items() if ctx.hist.get(k, 0) < v}
+    ctx.oblige('floor: every regime reached (%s)' % ', '.join('%s>=%d' % kv for kv in sorted(floors.items())), not short, 'below floor: %r' % short)
     if nrej:
         ctx.notes.append('%d of %d scenarios raised before completing (counted, not judged here)' % (nrej, nscn))
     if not sims:
         ctx.oblige('at least one complete simulation', False, 'every scenario raised')
         return
     for _ratio, case in sorted(all_drifts, key=lambda x: -x[0]):
-        ctx.violation('exit-masses-drift', 'within the first %d stored steps after a particle left the plume its recorded masses still move by more than rtol*|m| + atol per step (integrator history), though no faster than before the exit' % WINDOW,
+        ctx.violation('exit-masses-drift', 'within the first %d stored steps after a particle left the plume its recorded masses still move by more than rtol*|m| + atol per step (integrator history; never faster than 1.5 x the rate before the exit)' % TAIL,
                       case)
     if all_drifts:
         ctx.notes.append('%d stored steps (first %d after an exit) moved a mass slot by more than rtol*|m|+atol; worst %.1f times that; largest relative step %.3g'
-                         % (len(all_drifts), WINDOW, max(x[0] for x in all_drifts),
+                         % (len(all_drifts), TAIL, max(x[0] for x in all_drifts),
                             max(x[1]['step_change'] / abs(x[1]['mass_at_exit']) for x in all_drifts if x[1]['mass_at_exit'] != 0)))
     ctx.notes.append('worst relative drift of a compound total / inert mass over all simulations: %.3g' % worst)
     ctx.notes.append('largest per-step change of a mass slot after its particle left the plume, in units of rtol*|m|+atol: %.3g' % worst_frozen)
@@ -638,9 +674,22 @@ def run(ctx, lean_ok):
     # ---- Lean: replay of the loop control, corrections ----------------------------------------------------------
     if not lean_ok:
         return
-    out = run_driver(ctx, 'C04', lines + [cc['line'] for _s, _k, cc in corr] + sl_lines)
+    drv_lines = [c03._encode(rs['env'], rs['ps']) for _c, rs in drv]
+    out = run_driver(ctx, 'C04', lines + [cc['line'] for _s, _k, cc in corr] + sl_lines + drv_lines)
     if out is None:
         return
+    nbad = 0
+    for (case, rs), o in zip(drv, out[len(lines) + len(corr) + len(sl_lines):]):
+        sc = c03._slot_scales(rs['env'], rs['ps'], rs['lay'], rs['qp'])
+        ok = isinstance(o, list) and isinstance(o[0], list) and len(o[0]) == len(rs['qp']) and all(
+            close(float(a), float(b), TOL['gen_vs_source'], abs_floor=TOL['gen_vs_source'] * (sc[j] if math.isfinite(sc[j]) else 0.) + TOL['abs_floor'])
+            for j, (a, b) in enumerate(zip(o[0], rs['qp'])))
+        if not ok:
+            nbad += 1
+            if nbad <= 3:
+                ctx.broken.append(('correspondence', 'Model.Lmp.derivs vs lmp.derivs on a stored row', 'row %d flags %r' % (case['row'], case['flags'])))
+    ctx.oblige('correspondence Model.Lmp.derivs == lmp.derivs slot by slot on %d stored rows (%d after an exit)' % (len(drv), ctx.hist.get('stored-row-derivs:post-exit', 0)),
+               nbad == 0, '%d rows disagree' % nbad)
     nbad = 0
     for (name, nrows), o in zip(sl_want, out[len(lines) + len(corr):]):
         # rows stored by the real loop = passes + 1; the model reports the pass counter
